@@ -149,6 +149,14 @@ Fixpoint scatter_rows {V} (rows : list V) (idx : list nat) (upd : list V) : list
   | _, _ => rows
   end.
 
+(* ---- _ir_utils.broadcast_keeps_rank(value, reference): only RANKS are compared (used by the fusion rules: C19) ---------- *)
+Definition bkr_check (v r : option (list dim)) : bool :=
+  match v with
+  | None => false
+  | Some sv => Nat.leb (List.length sv) 1 ||
+               match r with Some sr => Nat.leb (List.length sv) (List.length sr) | None => false end
+  end.
+
 (* ---- broadcast_to_matmul: `if any(isinstance(dim, ir.SymbolicDim) ...): return False` ---------------------- *)
 Definition b2m_guard (a b : option (list dim)) : bool :=
   match a, b with Some x, Some y => all_int x && all_int y | _, _ => false end.
@@ -221,3 +229,6 @@ Definition split_agrees (c : split_case) : bool :=
   | Some (inr a), Some (inr b) => forallb2 Z.eqb a b
   | _, _ => false
   end.
+
+Definition bkr_case := (option (list dim) * option (list dim) * bool)%type.
+Definition bkr_agrees (c : bkr_case) : bool := let '(v, r, obs) := c in Bool.eqb (bkr_check v r) obs.
